@@ -120,8 +120,15 @@ class Interp(object):
     if isinstance(e, ast.IfExp):
       t = self.truth(fn, e.test, env)
       if t is None:
-        raise AnalysisError('%s: `%s` is not decided by the configuration' % (
-            fn.loc(e), norm_text(e.test)[:60]))
+        if self.strict:
+          raise AnalysisError('%s: `%s` is not decided by the configuration'
+                              % (fn.loc(e), norm_text(e.test)[:60]))
+        # the value is selected by the test: it depends on the operands of
+        # the test (control dependence) and on what both arms share
+        a = _join(self.val(fn, e.body, env))
+        b = _join(self.val(fn, e.orelse, env))
+        c = _join(self.val(fn, e.test, env))
+        return V(UNK, c.infl | (a.infl & b.infl))
       return self.val(fn, e.body if t else e.orelse, env)
     if isinstance(e, (ast.Tuple, ast.List)):
       return tuple(self.val(fn, x, env) for x in e.elts)
@@ -169,6 +176,11 @@ class Interp(object):
       l = self.val(fn, t.left, env)
       r = self.val(fn, t.comparators[0], env)
       op = t.ops[0]
+      if isinstance(op, (ast.In, ast.NotIn)) and isinstance(r, tuple) and \
+          isinstance(l, V) and l.conc is not UNK and l.conc is not GIVEN and \
+          all(isinstance(x, V) and x.conc is not UNK for x in r):
+        hit = any(type(x.conc) is type(l.conc) and x.conc == l.conc for x in r)
+        return hit if isinstance(op, ast.In) else (not hit)
       if isinstance(l, tuple) or isinstance(r, tuple):
         return None
       if isinstance(op, (ast.Is, ast.IsNot)):
@@ -231,6 +243,19 @@ class Interp(object):
       for r in rets[1:]:
         out = _meet(out, r)
       return out
+    finally:
+      self._depth -= 1
+
+  def run_env(self, fn, env):
+    """executes fn and returns the environment at its end (for __init__ /
+    build methods whose effect is the attribute state)."""
+    self._depth = getattr(self, '_depth', 0) + 1
+    try:
+      env = dict(env)
+      rets = []
+      self.trace.append(fn.qualname)
+      self._block(fn, fn.node.body, env, rets)
+      return env
     finally:
       self._depth -= 1
 
@@ -304,6 +329,14 @@ class Interp(object):
           if r1 and r2:
             return True
           merged = e2 if r1 else (e1 if r2 else _meet_env(e1, e2))
+          # control dependence: what either arm assigns is selected by the test
+          ctl = _join(self.val(fn, st.test, env)).infl
+          if ctl and not (r1 or r2):
+            for k in set(e1) | set(e2):
+              if e1.get(k) is not env.get(k) or e2.get(k) is not env.get(k):
+                v = merged.get(k)
+                if isinstance(v, V):
+                  merged[k] = V(v.conc, v.infl | ctl)
           env.clear()
           env.update(merged)
           continue
